@@ -1585,6 +1585,152 @@ theorem flat_blocksOwn (own : Cmd → Prop) (invp : σp → Prop) (g : PGen σp 
   | yield s c b k hs hc _ ih => exact .yield _ _ _ _ hs (fun _ => hc) ih
   | child s i ev k _ _ ih => exact ih
 
+
+
+/-- a parent generator none of whose own yields is blocking, passing only through states satisfying `invp` -/
+inductive PQuiet (invp : σp → Prop) : PGen σp Ev Cmd Reply → Prop where
+  | done (s) : invp s → PQuiet invp (.done s)
+  | yield (s c b k) : invp s → b ≠ Blk.yes → (∀ r, PQuiet invp (k r)) → PQuiet invp (.yield s c b k)
+  | child (s i ev k) : invp s → PQuiet invp k → PQuiet invp (.child s i ev k)
+
+/-- lowered over ANY children it has no `blocking is True` yield at all -/
+theorem lower_quiet [DecidableEq Cmd] (invp : σp → Prop) (Hc : Nat → Handler σc Ev Cmd Reply) (nil : Reply)
+    (g : PGen σp Ev Cmd Reply) (hg : PQuiet invp g) : ∀ chs : List (Layer σc Ev Cmd Reply),
+      BlocksOwn (fun _ : Cmd => False) (fun st : σp × List (Layer σc Ev Cmd Reply) => invp st.1) (lower Hc nil g chs) := by
+  induction hg with
+  | done s hs => intro chs; exact .done _ hs
+  | yield s c b k hs hb _ ih => intro chs; exact .yield _ _ _ _ hs (fun h => absurd h hb) (fun r => ih r chs)
+  | child s i ev k hs _ ih =>
+    intro chs
+    cases hi : chs[i]? with
+    | none => simpa [lower, hi] using ih chs
+    | some ch =>
+      simp only [lower, hi]
+      exact relay_blocksOwn _ (fun st : σp × List (Layer σc Ev Cmd Reply) => invp st.1) _ hs _
+        (emitted_never_blocking_true (Hc i) nil ch ev) _ (ih _)
+
+/-! ### positional children invariant (round 6): the i-th child keeps ITS relation to a fixed i-th reference -/
+
+/-- two lists related element by element, in order -/
+inductive Pointwise {α β : Type} (R : α → β → Prop) : List α → List β → Prop where
+  | nil : Pointwise R [] []
+  | cons {a b l₁ l₂} : R a b → Pointwise R l₁ l₂ → Pointwise R (a :: l₁) (b :: l₂)
+
+private theorem forall2_set {α β : Type} {R : α → β → Prop} {xs : List α} {ys : List β} (h : Pointwise R xs ys) :
+    ∀ (i : Nat) (y y' : β), ys[i]? = some y → (∀ x, R x y → R x y') → Pointwise R xs (ys.set i y') := by
+  induction h with
+  | nil => intro i y y' hi; simp at hi
+  | cons hab _ ih =>
+    intro i y y' hi hr
+    cases i with
+    | zero =>
+      simp only [List.getElem?_cons_zero, Option.some.injEq] at hi
+      subst hi
+      exact .cons (hr _ hab) (by assumption)
+    | succ j =>
+      simp only [List.getElem?_cons_succ] at hi
+      exact .cons hab (ih j y y' hi hr)
+
+private theorem forall2_mem_right {α β : Type} {R : α → β → Prop} {xs : List α} {ys : List β} (h : Pointwise R xs ys) :
+    ∀ y ∈ ys, ∃ x ∈ xs, R x y := by
+  induction h with
+  | nil => intro y hy; simp at hy
+  | cons hab _ ih =>
+    intro y hy
+    rcases List.mem_cons.mp hy with rfl | hy
+    · exact ⟨_, by simp, hab⟩
+    · obtain ⟨x, hx, hr⟩ := ih y hy
+      exact ⟨x, by simp [hx], hr⟩
+
+private theorem forall2_refl_of_mem {α : Type} {R : α → α → Prop} (l : List α) (h : ∀ a ∈ l, R a a) : Pointwise R l l := by
+  induction l with
+  | nil => exact .nil
+  | cons a t ih => exact .cons (h a (by simp)) (ih (fun b hb => h b (by simp [hb])))
+
+/-- like `CInv`, but positional: the children (also the ones captured by the suspended generator) are related, one
+    by one and in order, to a fixed list of references `xs` -/
+structure RInv [DecidableEq Cmd] {ι : Type} (R : ι → Layer σc Ev Cmd Reply → Prop) (xs : List ι)
+    (Hc : Nat → Handler σc Ev Cmd Reply) (nil : Reply)
+    (P : Layer (σp × List (Layer σc Ev Cmd Reply)) Ev Cmd Reply) : Prop where
+  kids : Pointwise R xs P.st.2
+  cont : ∀ c k, P.paused = some (c, k) → ∀ r, ∃ (g : PGen σp Ev Cmd Reply) (chs : List (Layer σc Ev Cmd Reply)),
+          k r = lower Hc nil g chs ∧ Pointwise R xs chs
+
+private theorem lower_rel [DecidableEq Cmd] {ι : Type} (R : ι → Layer σc Ev Cmd Reply → Prop) (xs : List ι)
+    (Hc : Nat → Handler σc Ev Cmd Reply) (nil : Reply)
+    (hR : ∀ i x ch ev, R x ch → R x (handleEvent (Hc i) nil ch ev).1)
+    (g : PGen σp Ev Cmd Reply) : ∀ chs : List (Layer σc Ev Cmd Reply), Pointwise R xs chs →
+    Pointwise R xs (run (Ev := Ev) nil (lower Hc nil g chs)).st.2 ∧
+    (∀ c k, (run (Ev := Ev) nil (lower Hc nil g chs)).paused = some (c, k) →
+      ∀ r, ∃ (g' : PGen σp Ev Cmd Reply) (chs' : List (Layer σc Ev Cmd Reply)),
+        k r = lower Hc nil g' chs' ∧ Pointwise R xs chs') := by
+  induction g with
+  | done s => intro chs h; exact ⟨by simpa [lower, run] using h, by simp [lower, run]⟩
+  | yield s c b k ih =>
+    intro chs h
+    cases b with
+    | yes =>
+      refine ⟨by simpa [lower, run] using h, ?_⟩
+      intro c' k' hk
+      simp only [lower, run, Option.some.injEq, Prod.mk.injEq] at hk
+      obtain ⟨_, rfl⟩ := hk
+      exact fun r => ⟨k r, chs, rfl, h⟩
+    | no => simpa [lower, run] using ih nil chs h
+    | owned => simpa [lower, run] using ih nil chs h
+  | child s i ev k ih =>
+    intro chs h
+    cases hi : chs[i]? with
+    | none => simpa [lower, hi] using ih chs h
+    | some ch =>
+      have h' := forall2_set h i ch (handleEvent (Hc i) nil ch ev).1 hi (fun x hx => hR i x ch ev hx)
+      simp only [lower, hi]
+      rw [run_relay nil _ _ _ (emitted_never_blocking_true (Hc i) nil ch ev)]
+      exact ih _ h'
+
+private theorem rinv_fresh [DecidableEq Cmd] {ι : Type} (R : ι → Layer σc Ev Cmd Reply → Prop) (xs : List ι)
+    (PH : σp → Event Ev Cmd Reply → PGen σp Ev Cmd Reply) (Hc : Nat → Handler σc Ev Cmd Reply) (nil : Reply)
+    (hR : ∀ i x ch ev, R x ch → R x (handleEvent (Hc i) nil ch ev).1)
+    (P : Layer (σp × List (Layer σc Ev Cmd Reply)) Ev Cmd Reply) (ev : Event Ev Cmd Reply)
+    (h : RInv R xs Hc nil P) : RInv R xs Hc nil (handleFresh (parentHandler PH Hc nil) nil P ev).1 := by
+  obtain ⟨a, b⟩ := lower_rel R xs Hc nil hR (PH P.st.1 ev) P.st.2 h.kids
+  exact ⟨a, b⟩
+
+private theorem rinv_drain [DecidableEq Cmd] {ι : Type} (R : ι → Layer σc Ev Cmd Reply → Prop) (xs : List ι)
+    (PH : σp → Event Ev Cmd Reply → PGen σp Ev Cmd Reply) (Hc : Nat → Handler σc Ev Cmd Reply) (nil : Reply)
+    (hR : ∀ i x ch ev, R x ch → R x (handleEvent (Hc i) nil ch ev).1) (q : List (Event Ev Cmd Reply)) :
+    ∀ (P : Layer (σp × List (Layer σc Ev Cmd Reply)) Ev Cmd Reply), RInv R xs Hc nil P →
+    RInv R xs Hc nil (drain (parentHandler PH Hc nil) nil P q).1 := by
+  induction q with
+  | nil => intro P h; exact ⟨h.kids, h.cont⟩
+  | cons ev rest ih =>
+    intro P h
+    cases hp : P.paused with
+    | some pk => simp only [drain, hp]; exact ⟨h.kids, fun c k a => h.cont c k (by simpa [hp] using a)⟩
+    | none => simp only [drain, hp]; exact ih _ (rinv_fresh R xs PH Hc nil hR P ev h)
+
+/-- one step of the parent preserves the positional children invariant -/
+theorem children_step_rel [DecidableEq Cmd] {ι : Type} (R : ι → Layer σc Ev Cmd Reply → Prop) (xs : List ι)
+    (PH : σp → Event Ev Cmd Reply → PGen σp Ev Cmd Reply) (Hc : Nat → Handler σc Ev Cmd Reply) (nil : Reply)
+    (hR : ∀ i x ch ev, R x ch → R x (handleEvent (Hc i) nil ch ev).1)
+    (P : Layer (σp × List (Layer σc Ev Cmd Reply)) Ev Cmd Reply) (ev : Event Ev Cmd Reply)
+    (h : RInv R xs Hc nil P) : RInv R xs Hc nil (handleEvent (parentHandler PH Hc nil) nil P ev).1 := by
+  have h' : RInv R xs Hc nil { P with arrived := P.arrived ++ [ev] } := ⟨h.kids, h.cont⟩
+  cases hp : P.paused with
+  | none => rw [he_idle _ nil P ev hp]; exact rinv_fresh R xs PH Hc nil hR _ ev h'
+  | some pk =>
+    obtain ⟨c, k⟩ := pk
+    by_cases hm : ∃ r, ev = .completed c r
+    · obtain ⟨r, rfl⟩ := hm
+      rw [he_match _ nil P c k r hp]
+      simp only [resumeWith]
+      apply rinv_drain R xs PH Hc nil hR
+      obtain ⟨g, chs, e, hg⟩ := h.cont c k hp r
+      obtain ⟨a, b⟩ := lower_rel R xs Hc nil hR g chs hg
+      rw [e]
+      exact ⟨a, b⟩
+    · rw [he_other _ nil P c k ev hp (fun r h => hm ⟨r, h⟩)]
+      exact ⟨h.kids, fun c' k' a => h.cont c' k' (by simpa [enqueue] using a)⟩
+
 end generic
 
 /-! ### the interpreted programs of the correspondence run satisfy the hypotheses above -/
@@ -1602,7 +1748,9 @@ private theorem runActs_owns (idx : Nat) (ev : E) (acts : List Act) :
     | ch i => exact .child _ _ _ _ (ih s)
     | sw m => exact ih s
 
-/-- every program run by the interpreter only yields commands stamped with its own layer index -/
+/-- AUXILIARY (cross-audit round 6): about `Prog.interp`, the round-1 interpreter of the fixed tree 1-(2-(4),3-(5)),
+    which the driver no longer runs (it runs `interpN`/`HT`); kept because the `exH`/`exParent` examples use it.  The tied
+    counterpart is `interpN_owns`.  Every program run by that interpreter only yields commands stamped with its index. -/
 theorem interp_owns (idx : Nat) (tab : Table) (s : S) (ev : E) :
     Owns (fun c : Cmd => c.layer = idx) (interp idx tab s ev) :=
   runActs_owns idx ev _ s
@@ -1622,7 +1770,8 @@ private theorem runActs_noblock (idx : Nat) (ev : E) (acts : List Act)
     | ch i => exact .child _ _ _ _ (ht s)
     | sw m => exact ht s
 
-/-- a program table without blocking yields gives a `NoBlock` parent -/
+/-- AUXILIARY (see `interp_owns`): a table without blocking yields gives a `NoBlock` parent, for the round-1
+    interpreter.  The tied counterparts are `interpN_quiet` / `tree_node_without_blocking_never_pauses`. -/
 theorem interp_noblock (idx : Nat) (tab : Table) (h : ∀ acts ∈ tab, ∀ a ∈ acts, ∀ l, a ≠ Act.y l true)
     (s : S) (ev : E) : NoBlock (interp idx tab s ev) := by
   apply runActs_noblock
@@ -1739,9 +1888,12 @@ private theorem treeOwn_fresh : ∀ (d : Nat) (L : Layer (TS d) Ev Cmd Reply), F
     exact ⟨⟨n.idx, ⟨rfl, by simp [Layer.init, pausedOn], by simp [Layer.init]⟩⟩,
            ⟨fun ch hc => treeOwn_fresh d ch (hk ch hc), by simp [Layer.init]⟩⟩
 
-/-- **Blocking one layer never blocks the layers above it — for whole trees.**  In a layer tree of any depth and
+/-- **Every layer of a tree pauses only on commands carrying its own index.**  In a layer tree of any depth and
     branching with re-bindable handlers, after any schedule delivered to the root, every layer has only ever
-    paused on commands carrying its own index: no layer is ever paused because a descendant blocks. -/
+    paused on commands carrying its own index.  (Cross-audit round 6: this excludes "paused on a descendant's
+    command" only when no descendant carries the same index; the reading in terms of descendants, under `Nodup` of the
+    indices, is `tree_no_layer_paused_by_descendant` below.  The structural reason, independent of indices, is
+    `lower_blocksOwn` / `emitted_never_blocking_true`: a relayed command never carries `blocking is True`.) -/
 theorem tree_layers_pause_only_on_own (d : Nat) (L0 : Layer (TS d) Ev Cmd Reply) (h0 : FreshTree d L0)
     (evs : List E) : TreeOwn d (runSched (HT d) 0 L0 evs) := by
   have key : ∀ (evs : List E) (L : Layer (TS d) Ev Cmd Reply), TreeOwn d L → TreeOwn d (runSched (HT d) 0 L evs) := by
@@ -1751,11 +1903,163 @@ theorem tree_layers_pause_only_on_own (d : Nat) (L0 : Layer (TS d) Ev Cmd Reply)
     | cons ev rest ih => intro L h; exact ih _ (tree_own_step d L ev h)
   exact key evs L0 (treeOwn_fresh d L0 h0)
 
-/-- the same behind a NextLayer -/
+/-- the same behind a NextLayer (same remark: index-relative; see `nextlayer_tree_no_layer_paused_by_descendant`) -/
 theorem nextlayer_tree_pause_only_on_own (P : NLParams Ev Cmd Reply) (d : Nat) (L0 : Layer (TS d) Ev Cmd Reply)
     (h0 : FreshTree d L0) (evs : List E) : TreeOwn d (nlRunSched P (HT d) 0 (nlInit L0) evs).st.child :=
   nextlayer_child_invariant_any (TreeOwn d) P (HT d) 0 (fun ch ev h => tree_own_step d ch ev h) L0
     (treeOwn_fresh d L0 h0) evs
+
+
+
+/-! #### the tied form of "a parent whose own yields are non-blocking is never paused" (for `interpN`, what the driver runs) -/
+
+private theorem runActsN_quiet (ev : E) (T : List Table) (acts : List Act) (h : ∀ a ∈ acts, ∀ l, a ≠ Act.y l true) :
+    ∀ n : Node, n.tabs = T → PQuiet (fun m : Node => m.tabs = T) (runActsN ev acts n) := by
+  induction acts with
+  | nil => intro n hn; exact .done n hn
+  | cons a t ih =>
+    intro n hn
+    have ht := ih (fun a ha => h a (by simp [ha]))
+    cases a with
+    | y label b =>
+      cases b with
+      | true => exact absurd rfl (h _ (by simp) label)
+      | false => exact .yield _ _ _ _ hn (by simp) (fun r => ht _ hn)
+    | ch j => exact .child _ _ _ _ hn (ht n hn)
+    | sw m => exact ht { n with mode := m } hn
+
+/-- a node none of whose handler tables contains a blocking yield: whichever handler is bound, whatever the event -/
+theorem interpN_quiet (T : List Table) (hT : ∀ tab ∈ T, ∀ acts ∈ tab, ∀ a ∈ acts, ∀ l, a ≠ Act.y l true)
+    (n : Node) (hn : n.tabs = T) (ev : E) : PQuiet (fun m : Node => m.tabs = T) (interpN n ev) := by
+  apply runActsN_quiet ev T _ _ n hn
+  intro a ha
+  have hmem : ∀ (l : List (List Act)) (k : Nat), l.getD k [] = [] ∨ l.getD k [] ∈ l := by
+    intro l k
+    by_cases hk : k < l.length
+    · right; rw [List.getD_eq_getElem?_getD, List.getElem?_eq_getElem hk]; simp
+    · left; rw [List.getD_eq_getElem?_getD, List.getElem?_eq_none (by omega)]; rfl
+  have hmemT : ∀ (k : Nat), T.getD k [] = [] ∨ T.getD k [] ∈ T := by
+    intro k
+    by_cases hk : k < T.length
+    · right; rw [List.getD_eq_getElem?_getD, List.getElem?_eq_getElem hk]; simp
+    · left; rw [List.getD_eq_getElem?_getD, List.getElem?_eq_none (by omega)]; rfl
+  rw [hn] at ha
+  rcases hmemT n.mode with h0 | h1
+  · rw [h0] at ha; simp at ha
+  · rcases hmem (T.getD n.mode []) (kindOfN n ev) with h2 | h2
+    · rw [h2] at ha; simp at ha
+    · exact hT _ h1 _ h2 a ha
+
+/-- **Blocking children never pause a parent that does not block itself** — tied form: a tree node (any depth, any
+    children in any state, handlers re-bound at will) none of whose tables has a blocking yield is never paused, over
+    every schedule. -/
+theorem tree_node_without_blocking_never_pauses (d : Nat) (n : Node) (chs : List (Layer (TS d) Ev Cmd Reply))
+    (hT : ∀ tab ∈ n.tabs, ∀ acts ∈ tab, ∀ a ∈ acts, ∀ l, a ≠ Act.y l true) (evs : List E) :
+    pausedOn (runSched (HT (d + 1)) 0 (Layer.init ((n, chs) : Node × List (Layer (TS d) Ev Cmd Reply))) evs).log = [] := by
+  have h := pauses_only_on_own_blocking (fun _ : Cmd => False)
+    (fun st : Node × List (Layer (TS d) Ev Cmd Reply) => st.1.tabs = n.tabs) (HT (d + 1)) 0
+    (fun st e hn => lower_quiet _ (fun _ => HT d) 0 _ (interpN_quiet n.tabs hT st.1 hn e) st.2)
+    ((n, chs) : Node × List (Layer (TS d) Ev Cmd Reply)) rfl evs
+  exact List.eq_nil_iff_forall_not_mem.mpr (fun c hc => h.2 c hc)
+
+/-! #### … and the reading "no layer is paused because a DESCENDANT blocks", for trees with pairwise distinct indices
+
+  `TreeOwn` says: every pause of a layer is on a command carrying that layer's index.  That separates a layer's own
+  commands from those of its descendants only if no descendant carries the same index (cross-audit round 6: with a
+  repeated index the statement is true but says less than its former docstring).  `TI d A L` pins every layer of the
+  running tree `L` to the layer at the same position of the INITIAL tree `A` (same index, own pauses only), so the
+  indices never change (`ti_idxs`), and with `Nodup` of the initial indices every pause of every layer is on a command
+  whose index occurs in NONE of its descendants (`PauseSep`). -/
+
+/-- the indices of a tree, preorder -/
+def idxs : (d : Nat) → Layer (TS d) Ev Cmd Reply → List Nat
+  | 0, L => [L.st.idx]
+  | d + 1, L => L.st.1.idx :: L.st.2.flatMap (idxs d)
+
+/-- `L` is the tree `A` after some history: position by position the same index, every layer paused only on
+    commands with ITS index, also in the children captured by suspended generators -/
+def TI : (d : Nat) → Layer (TS d) Ev Cmd Reply → Layer (TS d) Ev Cmd Reply → Prop
+  | 0, A, L => OInv (fun c : Cmd => c.layer = A.st.idx) (fun m : Node => m.idx = A.st.idx) L
+  | d + 1, A, L =>
+      OInv (fun c : Cmd => c.layer = A.st.1.idx)
+        (fun st : Node × List (Layer (TS d) Ev Cmd Reply) => st.1.idx = A.st.1.idx) L ∧
+      RInv (σp := Node) (TI d) A.st.2 (fun _ => HT d) 0 L
+
+theorem ti_step : ∀ (d : Nat) (A L : Layer (TS d) Ev Cmd Reply) (ev : E), TI d A L →
+    TI d A (handleEvent (HT d) 0 L ev).1
+  | 0, A, L, ev, h =>
+    oinv_step _ _ (HT 0) 0 (fun n e hn => flat_blocksOwn _ _ _ (runActsN_powns e _ A.st.idx n hn)) L ev h
+  | d + 1, A, L, ev, ⟨h, hc⟩ =>
+    ⟨oinv_step _ _ (HT (d + 1)) 0
+        (fun st e hn => lower_blocksOwn _ _ (fun _ => HT d) 0 _ (runActsN_powns e _ A.st.1.idx st.1 hn) st.2) L ev h,
+     children_step_rel (TI d) A.st.2 interpN (fun _ => HT d) 0 (fun _ x ch ev' h' => ti_step d x ch ev' h') L ev hc⟩
+
+private theorem ti_fresh : ∀ (d : Nat) (L : Layer (TS d) Ev Cmd Reply), FreshTree d L → TI d L L
+  | 0, L, h => by
+    obtain ⟨n, rfl⟩ := h
+    exact ⟨rfl, by simp [Layer.init, pausedOn], by simp [Layer.init]⟩
+  | d + 1, L, h => by
+    obtain ⟨n, chs, rfl, hk⟩ := h
+    exact ⟨⟨rfl, by simp [Layer.init, pausedOn], by simp [Layer.init]⟩,
+           ⟨forall2_refl_of_mem chs (fun ch hc => ti_fresh d ch (hk ch hc)), by simp [Layer.init]⟩⟩
+
+/-- the indices of the tree never change -/
+theorem ti_idxs : ∀ (d : Nat) (A L : Layer (TS d) Ev Cmd Reply), TI d A L → idxs d L = idxs d A
+  | 0, A, L, h => by simp only [idxs]; rw [h.st]
+  | d + 1, A, L, ⟨h, hc⟩ => by
+    have hk : ∀ (xs ys : List (Layer (TS d) Ev Cmd Reply)), Pointwise (TI d) xs ys →
+        ys.flatMap (idxs d) = xs.flatMap (idxs d) := by
+      intro xs ys hf
+      induction hf with
+      | nil => rfl
+      | cons hab _ ih => simp only [List.flatMap_cons]; rw [ti_idxs d _ _ hab, ih]
+    simp only [idxs]
+    rw [h.st, hk _ _ hc.kids]
+
+/-- every pause of every layer (at every depth) is on a command whose index occurs in none of that layer's
+    descendants -/
+def PauseSep : (d : Nat) → Layer (TS d) Ev Cmd Reply → Prop
+  | 0, _ => True
+  | d + 1, L => (∀ c ∈ pausedOn L.log, ∀ ch ∈ L.st.2, c.layer ∉ idxs d ch) ∧ ∀ ch ∈ L.st.2, PauseSep d ch
+
+theorem ti_pauseSep : ∀ (d : Nat) (A L : Layer (TS d) Ev Cmd Reply), TI d A L → (idxs d A).Nodup → PauseSep d L
+  | 0, _, _, _, _ => trivial
+  | d + 1, A, L, ⟨h, hc⟩, hn => by
+    simp only [idxs, List.nodup_cons] at hn
+    obtain ⟨hroot, hrest⟩ := hn
+    refine ⟨?_, ?_⟩
+    · intro c hcmd ch hch hin
+      obtain ⟨a, ha, hta⟩ := forall2_mem_right hc.kids ch hch
+      rw [ti_idxs d a ch hta, h.logs c hcmd] at hin
+      exact hroot (List.mem_flatMap.mpr ⟨a, ha, hin⟩)
+    · intro ch hch
+      obtain ⟨a, ha, hta⟩ := forall2_mem_right hc.kids ch hch
+      have hna : (idxs d a).Nodup := by
+        rw [List.flatMap_def] at hrest
+        exact List.Nodup.sublist (List.sublist_flatten_of_mem (List.mem_map.mpr ⟨a, ha, rfl⟩)) hrest
+      exact ti_pauseSep d a ch hta hna
+
+/-- **Blocking one layer never blocks the layers above it — whole trees, whole histories, in terms of descendants.**
+    In a fresh layer tree of any depth and branching whose indices are pairwise distinct, after any schedule delivered
+    to the root: the indices are what they were, and every pause of every layer is on a command whose index belongs to
+    none of its descendants — no layer is ever paused on a command of a layer below it. -/
+theorem tree_no_layer_paused_by_descendant (d : Nat) (L0 : Layer (TS d) Ev Cmd Reply) (h0 : FreshTree d L0)
+    (hn : (idxs d L0).Nodup) (evs : List E) :
+    idxs d (runSched (HT d) 0 L0 evs) = idxs d L0 ∧ PauseSep d (runSched (HT d) 0 L0 evs) := by
+  have key : ∀ (evs : List E) (L : Layer (TS d) Ev Cmd Reply), TI d L0 L → TI d L0 (runSched (HT d) 0 L evs) := by
+    intro evs
+    induction evs with
+    | nil => intro L h; exact h
+    | cons ev rest ih => intro L h; exact ih _ (ti_step d L0 L ev h)
+  have := key evs L0 (ti_fresh d L0 h0)
+  exact ⟨ti_idxs d L0 _ this, ti_pauseSep d L0 _ this hn⟩
+
+/-- the same for a tree behind a NextLayer -/
+theorem nextlayer_tree_no_layer_paused_by_descendant (P : NLParams Ev Cmd Reply) (d : Nat)
+    (L0 : Layer (TS d) Ev Cmd Reply) (h0 : FreshTree d L0) (hn : (idxs d L0).Nodup) (evs : List E) :
+    PauseSep d (nlRunSched P (HT d) 0 (nlInit L0) evs).st.child :=
+  ti_pauseSep d L0 _
+    (nextlayer_child_invariant_any (TI d L0) P (HT d) 0 (fun ch ev h => ti_step d L0 ch ev h) L0 (ti_fresh d L0 h0) evs) hn
 
 /-- a parent in the tree is never paused by a command of a descendant: it pauses only on commands carrying
     its own index (instance of `parent_pauses_only_on_own_commands`; the index is part of the node state) -/
@@ -1927,6 +2231,33 @@ example : (nlRunSched exNL exH 0 (nlInit (Layer.init ⟨0, 0⟩))
 example : (runSched (HT 2) 0 exRoot [.plain ⟨1, 0⟩, .plain ⟨5, 1⟩, .completed ⟨1, 0, 1, 0⟩ 3]).paused.isNone = true ∧
     ((runSched (HT 2) 0 exRoot [.plain ⟨1, 0⟩, .plain ⟨5, 1⟩, .completed ⟨1, 0, 1, 0⟩ 3]).st.2.map
       (fun ch => ch.paused.map (·.1))) = [some ⟨2, 0, 1, 0⟩, some ⟨3, 0, 1, 0⟩] := by decide
+
+-- round 6: distinct indices on exRoot, hence every pause is on a command of no descendant
+example : (idxs 2 exRoot).Nodup ∧ idxs 2 exRoot = [1, 2, 4, 3] := by decide
+example : PauseSep 2 (runSched (HT 2) 0 exRoot [.plain ⟨1, 0⟩, .completed ⟨1, 0, 1, 0⟩ 5]) :=
+  (tree_no_layer_paused_by_descendant 2 exRoot
+    ⟨_, _, rfl, by
+      intro ch hc
+      simp only [List.mem_cons, List.not_mem_nil, or_false] at hc
+      rcases hc with rfl | rfl
+      · exact ⟨_, _, rfl, by intro g hg; simp only [List.mem_cons, List.not_mem_nil, or_false] at hg; subst hg; exact ⟨_, rfl⟩⟩
+      · exact ⟨_, _, rfl, by intro g hg; simp at hg⟩⟩ (by decide) _).2
+/-- the auditor's counter-instance: with a REPEATED index the leaf's command satisfies the root's predicate, so
+    `TreeOwn` alone does not tell them apart — `Nodup` fails here and `tree_no_layer_paused_by_descendant` does not apply -/
+private def dupRoot : Layer (TS 1) Ev Cmd Reply :=
+  Layer.init ((⟨⟨0, 0⟩, 0, 4, [[[], [.ch 0]]], [[4]]⟩ : Node), [Layer.init ⟨⟨0, 0⟩, 0, 4, [[[], [.y 1 true]]], []⟩])
+example : ¬ (idxs 1 dupRoot).Nodup ∧
+    ((runSched (HT 1) 0 dupRoot [.plain ⟨1, 0⟩]).st.2.map (fun ch => ch.paused.map (·.1))) = [some ⟨4, 0, 1, 0⟩] ∧
+    (runSched (HT 1) 0 dupRoot [.plain ⟨1, 0⟩]).paused.isNone = true := by decide
+-- a node without blocking yields over a blocking child: hypothesis of tree_node_without_blocking_never_pauses
+example : pausedOn (runSched (HT 1) 0 dupRoot [.plain ⟨1, 0⟩, .plain ⟨1, 1⟩]).log = [] :=
+  tree_node_without_blocking_never_pauses 0 _ _ (by
+    intro tab ht acts ha a h l
+    simp only [List.mem_cons, List.not_mem_nil, or_false] at ht; subst ht
+    simp only [List.mem_cons, List.not_mem_nil, or_false] at ha
+    rcases ha with rfl | rfl
+    · simp at h
+    · simp only [List.mem_cons, List.not_mem_nil, or_false] at h; subst h; simp) _
 
 end prog
 
